@@ -173,6 +173,10 @@ class Process:
                 SCHED.order.append(self.idx)
         return self._code
 
+    @property
+    def sentinel(self):
+        return ('sentinel', self.idx)
+
     def is_alive(self):
         return self.state == 'running' and self.exitcode is None
 
@@ -216,10 +220,34 @@ class Manager:
         return _Lock()
 
 
+class _Connection:
+    """multiprocessing.connection: wait() on process sentinels blocks
+    until at least one of them has finished - which one is the
+    scheduler's choice"""
+
+    @staticmethod
+    def wait(object_list, timeout=None):
+        procs = [p for p in SCHED.procs
+                 if p.idx is not None and p.sentinel in list(object_list)]
+        done = [p for p in procs if p.state == 'done']
+        if done:
+            return [p.sentinel for p in done]
+        running = [p for p in procs if p.state == 'running']
+        if not running:
+            return []
+        k = core.CUR.choice(f"{SCHED.tag}wait[{len(SCHED.order)}]",
+                            len(running))
+        p = running[k]
+        p.polls = SCHED.K + 1           # finishes now
+        p.exitcode
+        return [p.sentinel]
+
+
 class MPModule:
     Process = Process
     Manager = Manager
     Lock = _Lock
+    connection = _Connection
 
     @staticmethod
     def cpu_count():
